@@ -382,6 +382,43 @@ impl Cx {
             Expr::If(_) | Expr::Match(_) | Expr::Block(_) | Expr::Macro(_) => {
                 format!("(← {})", self.m(e)?)
             }
+            // (added for C19) `[a, b, c]` ↦ a Lean list literal
+            Expr::Array(a) => {
+                let xs: Result<Vec<_>, _> =
+                    a.elems.iter().map(|x| self.v(x)).collect();
+                format!("[{}]", xs?.join(", "))
+            }
+            // (added for C19) `|x, y| body` ↦ `(fun x y => body)`; the body
+            // must be pure (a `(← …)` cannot be lifted over the binder)
+            Expr::Closure(c) => {
+                let mut ps = vec![];
+                for p in &c.inputs {
+                    match p {
+                        Pat::Ident(_) | Pat::Wild(_) => ps.push(self.pat(p)?),
+                        other => {
+                            return Err(format!(
+                                "unsupported closure parameter: {}",
+                                other.to_token_stream()
+                            ));
+                        }
+                    }
+                }
+                let mut body: &Expr = &c.body;
+                while let Expr::Block(b) = body {
+                    match b.block.stmts.as_slice() {
+                        [Stmt::Expr(e, None)] => body = e,
+                        _ => break,
+                    }
+                }
+                let b = self.v(body)?;
+                if b.contains("(←") {
+                    return Err(format!(
+                        "unsupported: fallible expression inside a closure: {}",
+                        c.body.to_token_stream()
+                    ));
+                }
+                format!("(fun {} => {b})", ps.join(" "))
+            }
             other => {
                 return Err(format!(
                     "unsupported expression: {}",
